@@ -25,7 +25,7 @@ ASSUMPTIONS = [
     "'file the library opened itself' is observed by patching pathlib.Path.open from the check to hand out a real OS file object whose .closed is read after the call; ResourceWarning capture is a second channel",
     "whether a given fault makes the load fail is irrelevant (the vendored chunk reader swallows some OSErrors in its seek fallback)",
 ]
-REQUIRED_COUNTERS = ["loads", "strictness_evaluations", "nested_evaluations", "files_opened", "files_closed_checked",
+REQUIRED_COUNTERS = ["loads", "strictness_evaluations", "nested_evaluations", "files_opened", "files_closed_checked", "descriptor_checks",
                      "io_faults", "line_faults", "truncations", "loads_raised", "loads_completed"]
 WORKERS = {"quick": 8, "thorough": 16}
 # quick tier: these files get a failpoint on every distinct source line they reach; the others a sample.
@@ -134,6 +134,22 @@ class Judge:
         res.counters["names_rebound"] = self.n_rebound
 
 
+def _fds():
+    try:
+        # (the listing's own descriptor is closed again by the time fstat looks at it)
+        return {fd for fd in (int(x) for x in os.listdir("/proc/self/fd")) if _fd_alive(fd)}
+    except OSError:
+        return set()
+
+
+def _fd_alive(fd):
+    try:
+        os.fstat(fd)
+        return True
+    except OSError:
+        return False
+
+
 def boundaries(data):
     try:
         return [c[2] for c in iffparse.parse(data)] + [len(data)]
@@ -155,6 +171,7 @@ def run_file(res, judge, tracker, fp, name, data, path, rng, tier, full_lines=Tr
         errors.RAISE_CONTROLLER_VALUE_ERRORS = flag
         arg = make_arg()
         raised = None
+        fds_before = _fds()
         try:
             if arm:
                 arm()
@@ -185,6 +202,24 @@ def run_file(res, judge, tracker, fp, name, data, path, rng, tier, full_lines=Tr
                               f"file opened by the library from a path is still open after the call ({type(raised).__name__ if raised else 'returned'}); case {case}", case)
                 f.armed = False
                 f.close()
+        # whatever the library uses to open a path (pathlib, open(), os.open ...): the process holds no more descriptors
+        # after the call than before it
+        res.count("descriptor_checks")
+        leaked = [fd for fd in _fds() - fds_before if _fd_alive(fd)]
+        if leaked:
+            what = []
+            for fd in leaked:
+                try:
+                    what.append(os.readlink(f"/proc/self/fd/{fd}"))
+                except OSError:
+                    what.append("?")
+                try:
+                    os.close(fd)
+                except OSError:
+                    pass
+            res.violation(f"C18:descriptor-left-open:{'raise' if raised is not None else 'return'}",
+                          f"{len(leaked)} descriptor(s) opened during the call are still open after it ({what[:3]}; "
+                          f"{type(raised).__name__ if raised else 'returned'}); case {case}", case)
         return raised
 
     def sources():
@@ -200,6 +235,9 @@ def run_file(res, judge, tracker, fp, name, data, path, rng, tier, full_lines=Tr
         tracker.fail_open = False
         attempt("missing-path", None, "str", lambda: str(path) + ".does-not-exist", flag)
         attempt("missing-path", None, "path", lambda: Path(str(path) + ".does-not-exist"), flag)
+        # a path that can be opened at the OS level but not read as a file
+        attempt("directory-path", None, "str", lambda: os.path.dirname(str(path)), flag)
+        attempt("directory-path", None, "path", lambda: Path(os.path.dirname(str(path))), flag)
 
     # ---------------- I/O faults at every call index (BytesIO source), sampled for path sources
     probe = faults.FaultyBytesIO(data)
